@@ -13,7 +13,7 @@ RowOK(r) ==
                       [] r.on = "access" /\ r.method = "POST" -> r.reqs = <<"access">>
                       [] r.on = "access" -> Range(r.reqs) \subseteq {"access", "get"}
                       [] OTHER -> r.reqs = <<"access", "call">>
-            ELSE CASE r.on = "auth" -> r.status = 200 /\ r.reqs = <<"auth", "access", "get">>   \* header-auth result is not the request's result
+            ELSE CASE r.on = "auth" -> r.status = 200 /\ Len(r.reqs) = 3 /\ r.reqs[1] = "auth" /\ Range(r.reqs) = {"auth", "access", "get"}   \* header-auth result is not the request's result
                    [] r.on = "access" /\ r.method = "POST" -> r.status = BaseStatus(r) /\ r.reqs = (IF r.base = "ok" THEN <<"access", "call">> ELSE <<"access">>)
                    [] r.on = "access" -> r.status = BaseStatus(r)
                    [] OTHER -> r.status = BaseStatus(r)
